@@ -25,7 +25,8 @@ from fractions import Fraction
 VERIF = os.path.dirname(os.path.dirname(os.path.abspath(__file__)))
 REPO = os.environ.get("VERIF_REPO", "/repo")
 LEAN_DIR = os.path.join(VERIF, "lean")
-DRIVER = os.path.join(LEAN_DIR, ".lake", "build", "bin", "qedriver")
+def driver_path(pid):
+    return os.path.join(LEAN_DIR, ".lake", "build", "bin", "qedriver_%s" % pid.lower())
 STD_AXIOMS = {"propext", "Classical.choice", "Quot.sound"}
 FORBIDDEN = re.compile(
     r"\bsorry\b|\badmit\b|^\s*axiom\s|native_decide|bv_decide|implemented_by|\bunsafe\s|maxHeartbeats\s+0\b")
@@ -172,9 +173,10 @@ def run(cmd, cwd=None, timeout=3600, env=None):
     return p.returncode, p.stdout
 
 
-def ensure_driver():
-    rc, out = run(["lake", "build", "qedriver"], cwd=LEAN_DIR)
-    if rc != 0 or not os.path.exists(DRIVER):
+def ensure_driver(pid):
+    """(re)build the model of `pid` and its line-protocol driver from the sources on disk"""
+    rc, out = run(["lake", "build", "qedriver_%s" % pid.lower()], cwd=LEAN_DIR)
+    if rc != 0 or not os.path.exists(driver_path(pid)):
         sys.stdout.write(out[-4000:])
         raise SystemExit(2)
 
@@ -332,7 +334,7 @@ class Ctx:
         if not lines:
             return []
         data = "\n".join(lines) + "\n"
-        p = subprocess.run([DRIVER], input=data, stdout=subprocess.PIPE, stderr=subprocess.PIPE, text=True)
+        p = subprocess.run([driver_path(self.pid)], input=data, stdout=subprocess.PIPE, stderr=subprocess.PIPE, text=True)
         if p.returncode != 0:
             sys.stdout.write("driver failed: rc=%s %s\n" % (p.returncode, p.stderr[-2000:]))
             raise SystemExit(2)
